@@ -83,6 +83,54 @@ def region(dic, vid, S, memo):
     return eq
 
 
+PRUNE_SNIPPET = '''
+import itertools
+from t4_geom_convert.Kernel.Volume.VolumeT4 import VolumeT4
+from t4_geom_convert.Kernel.Volume.DictVolumeT4 import DictVolumeT4
+from t4_geom_convert.Kernel.Volume.ConstructVolumeT4 import remove_empty_volumes, remove_unused_volumes
+from t4_geom_convert.Kernel.Surface.Duplicates import renumber_surfaces
+spec = %r
+merge = %r
+def build():
+    dic = DictVolumeT4()
+    for vid, pl, mi, ops, fict in spec:
+        dic[vid] = VolumeT4(pluses=pl, minuses=mi, ops=ops, fictive=fict)
+    return dic
+def region(dic, vid, S):
+    v = dic[vid]
+    r = all(S[s] for s in v.pluses) and all(not S[s] for s in v.minuses)
+    if v.ops is not None:
+        args = [region(dic, a, S) for a in v.ops[1]]
+        r = (r or any(args)) if v.ops[0] == 'UNION' else (r and all(args))
+    return r
+dic = build()
+if merge:
+    dic = renumber_surfaces(dic, {1: 1, 2: 1, 8: 8, 9: 9})
+before = build()
+if merge:
+    before = renumber_surfaces(before, {1: 1, 2: 1, 8: 8, 9: 9})
+remove_empty_volumes(dic, (8, 9))
+remove_unused_volumes(dic)
+for vid, v in dic.items():
+    assert not (v.pluses & v.minuses), 'volume %%d keeps a surface on both sides' %% vid
+    if v.ops is not None:
+        for a in v.ops[1]:
+            assert a in dic, 'volume %%d references removed volume %%d' %% (vid, a)
+for bits in itertools.product((False, True), repeat=4):
+    S = dict(zip((1, 2, 8, 9), bits))
+    if S[8] and not S[9]:
+        continue          # x > 1 implies x > -1
+    for vid in before:
+        if before[vid].fictive:
+            continue
+        want = region(before, vid, S)
+        if vid in dic:
+            assert region(dic, vid, S) == want, 'volume %%d denotes a different region after pruning (senses %%r)' %% (vid, S)
+        else:
+            assert not want, 'non-empty non-virtual volume %%d was removed (senses %%r)' %% (vid, S)
+'''
+
+
 def prune_unit(task):
     sd, count, nvol = task
     from t4_geom_convert.Kernel.Volume.ConstructVolumeT4 import remove_empty_volumes, remove_unused_volumes
@@ -103,6 +151,7 @@ def prune_unit(task):
         res['evaluations'] += 1
         before = {vid: region(dic, vid, S, {}) for vid in dic if not dic[vid].fictive}
         mode = rnd.random()
+        merged = mode < 0.3
         try:
             if mode < 0.3:
                 # merge surface 2 into 1 (an arbitrary renumbering): regions must follow the substitution
@@ -113,8 +162,10 @@ def prune_unit(task):
             remove_empty_volumes(dic, union_ids)
             remove_unused_volumes(dic)
         except Exception as e:
-            res['violations'].append({'signature': {'kind': 'prune-exception', 'exception': type(e).__name__}, 'replay': '-',
-                                      'text': 'pruning raised %r on table %r' % (e, spec)})
+            from ..common import unit_violation
+            v = unit_violation(PROP, {'kind': 'prune-exception', 'exception': type(e).__name__},
+                               'pruning raised %r on table %r' % (e, spec), PRUNE_SNIPPET % (spec, merged))
+            (res['violations'] if v else res['harness_errors']).append(v or 'prune exception not reproduced')
             continue
         res['obligations'] += 1
         pb = None
@@ -150,8 +201,10 @@ def prune_unit(task):
             if not res['samples']:
                 res['samples'].append({'unit': 'prune', 'table': [list(map(str, sp)) for sp in spec], 'verdict': 'regions preserved'})
         else:
-            res['violations'].append({'signature': {'kind': 'prune', 'problem': pb.split(' ')[0]}, 'replay': '-',
-                                      'text': '%s; table (id, PLUS, MINUS, ops, fictive): %r' % (pb, spec)})
+            from ..common import unit_violation
+            v = unit_violation(PROP, {'kind': 'prune', 'problem': pb.split(' ')[0]},
+                               '%s; table (id, PLUS, MINUS, ops, fictive): %r' % (pb, spec), PRUNE_SNIPPET % (spec, merged))
+            (res['violations'] if v else res['harness_errors']).append(v or 'prune problem not reproduced: %s' % pb)
             if len(res['violations']) > 3:
                 break
     res['distinct'] = ['prune|%d|%d' % (sd, i) for i in range(min(len(seen), 50))]
